@@ -130,6 +130,10 @@ Next == DoNew \/ DoStart \/ DoFinish \/ DoSerialize \/ DoRestore
 
 Spec == Init /\ [][Next]_vars
 
+(* the class of the last outcome is an observation only (used to print        *)
+(* behaviours): models that do not need it hide it with this VIEW             *)
+ViewNoLast == <<st, [i \in DOMAIN aux |-> [aux[i] EXCEPT !.lastc = "none"]], wire, disk, nrest>>
+
 (* ---------------------------------------------------------------------- *)
 (* properties                                                             *)
 (* ---------------------------------------------------------------------- *)
